@@ -943,6 +943,14 @@ class Envelope:
         """
         # Will not attempt to contract past vector
         # final = ExpansionLevel.Vector
+        if self.state is None:
+            # Not combined: contract the states where they are
+            self.fock.contract(final=final, tol=tol)
+            self.polarization.contract(final=final, tol=tol)
+            return
+        if self.expansion_level != ExpansionLevel.Matrix:
+            # Nothing to contract, product state is not a density matrix
+            return
         assert isinstance(self.state, jnp.ndarray)
         assert self.state.shape == (self.dimensions, self.dimensions)
         state_squared = jnp.matmul(self.state, self.state)
